@@ -249,3 +249,86 @@ def check_C19(ctx, replay=None):
     return finish(ctx, "model_checking", cov,
                   ["domain: transactions whose uncompressed estimate and stored size both fit an empty segment (the admission rule "
                    "turns away larger estimates by design; they are not judged)"])
+
+
+def _serial_search(ctx, path, nb, timeout=1500):
+    """TraceSerial.tla over one recorded file: (explained?, TLC result)."""
+    cfg = core.make_cfg(ctx, "TraceSerial.cfg", NB=nb)
+    res = run_tlc(ctx, "TraceSerial", cfg, workers=1, deque=True, timeout=timeout, xmx="6g", env={"TRACE": path},
+                  tags=(), coverage=False, expect_error=True)
+    if res.ok:
+        return False, res          # state space exhausted without reaching the end of the last run
+    if res.error and "NotAllExplained" in res.error:
+        return True, res           # the counterexample is the serial order
+    raise core.ToolError("TraceSerial.tla failed unexpectedly: %s (log %s)" % (res.error, res.log))
+
+
+def check_C16(ctx, replay=None):
+    import os
+    import shutil
+    if not ctx.quick():
+        # the reference model's own invariants (checked on every change by C02)
+        ex = run_tlc(ctx, "MCEventStore", "MCEventStore.cfg", workers=8, timeout=2400, tags=(), xmx="10g")
+        core.require_actions(ex, ["HAppend", "HAppendBad"], "eventstore")
+        _tlc_must_hold(ctx, ex, "c16:tlc-invariant")
+    binary = cargo_build(ctx, "h-store")
+    if replay:
+        rp = json.load(open(replay))["replay"]
+        files = [{"path": rp["trace"], "nb": rp["nb"], "wt": rp.get("wt", 0), "runs": 1}]
+        stats = {"evaluations": 1, "distinct_classes": 2, "samples": [rp]}
+    else:
+        hr = run_harness(ctx, binary, ["race", ctx.path("race")], timeout=3000)
+        for v in hr.violations:
+            add_violation(ctx, v["key"], v["detail"], v["replay"])
+        files, stats = hr.stats["files"], hr.stats
+    explained_runs = 0
+    searches = 0
+    for f in files:
+        ok, res = _serial_search(ctx, f["path"], f["nb"])
+        searches += 1
+        if ok:
+            explained_runs += f["runs"]
+            continue
+        # which run has no serial explanation?  re-check each run on its own
+        lines = [json.loads(l) for l in open(f["path"])]
+        for r in sorted({l["run"] for l in lines}):
+            one = ctx.path("race-nb%d-wt%d-run%d.ndjson" % (f["nb"], f["wt"], r))
+            with open(one, "w") as o:
+                for l in lines:
+                    if l["run"] == r:
+                        l = dict(l)
+                        l["run"] = 1
+                        o.write(json.dumps(l) + "\n")
+            ok1, _ = _serial_search(ctx, one, f["nb"])
+            searches += 1
+            if ok1:
+                explained_runs += 1
+                continue
+            keep = os.path.join(core.REPLAYS, "C16-%d-nb%d-wt%d-run%d.ndjson" % (ctx.seed, f["nb"], f["wt"], r))
+            os.makedirs(core.REPLAYS, exist_ok=True)
+            shutil.copy(one, keep)
+            calls = [l for l in lines if l["run"] == r and l["e"] == "call"]
+            add_violation(ctx, "c16:no-serial-order",
+                          {"buckets": f["nb"], "writer_threads": f["wt"], "run": r, "calls": len(calls),
+                           "accepted": sum(1 for c in calls if c["ok"] == 1),
+                           "problem": "no serial order of the reference model reproduces the recorded outcomes and final state"},
+                          {"trace": keep, "nb": f["nb"], "wt": f["wt"]})
+    cov = {
+        "states": sum(r.distinct for r in ctx.tlc_runs), "transitions": sum(r.generated for r in ctx.tlc_runs),
+        "traces_validated_against_impl": explained_runs,
+        "samples": stats.get("samples", []),
+        "evaluations": stats["evaluations"], "distinct_nontrivial": stats["distinct_classes"],
+        "calls": stats.get("calls"), "accepted": stats.get("accepted"), "rejects": stats.get("rejects"),
+        "clients": stats.get("clients"), "serial_searches": searches,
+        "rule": "8 clients race optimistic appends (Exact/Empty expectations read a moment earlier, some one ahead, Any/Exists, "
+                "expected partition sequences, 1-2 events, occasional foreign partition or key) on 3 shared streams / 4 partitions "
+                "of a real Database with 1-4 buckets and 1-2 writer threads; every call is recorded with its outcome (first "
+                "sequence and per-event versions, or rejection) and each run ends with the latest version of every stream and "
+                "sequence of every partition. TLC searches TraceSerial.tla (next-state relation: apply a not yet applied accepted "
+                "call whose recorded outcome EventStore!Evaluate reproduces; a rejected call must be rejected in some state of the "
+                "order) for a serial order ending in the recorded final observations; the witness is the counterexample to "
+                "NotAllExplained, and exhausting the search space without one is the violation. evaluations = runs; "
+                "distinct_nontrivial = configurations + rejection classes that occurred.",
+    }
+    return finish(ctx, "model_checking", cov,
+                  ["a serial order need not respect real-time order of non-overlapping calls (the statement does not ask for it)"])
